@@ -47,7 +47,6 @@ TRUSTED_BASE = [
 ]
 ASSUMPTIONS = [
     "the file name ends in .whl (splitext/lower not modelled) and names a regular file",
-    "project names containing regex meta characters other than '.' are outside the model (explicit Unmodelled result, excluded in the theorems)",
     "the fall-through of an unreadable wheel into the source-directory analysis is modelled by its observed result (MetadataError); exceptions other than BadZipFile from zipfile (zlib.error on corrupt deflate data, encrypted members) are not modelled",
 ]
 
@@ -1127,12 +1126,13 @@ def replay_known(ctx: Ctx, entry: Dict[str, Any]) -> Optional[bool]:
     return True if got == c["observed"] else None
 
 
-LEVEL_TEXT = ("Theorems proved in Coq for ALL METADATA texts and ALL archive name lists over a Gallina transcription of "
-              "_parse_flat_metadata, _find_dist_info_metadata, _fetch_from_wheel and the .whl branch of extract_metadata: inside "
-              "decidable guards the parser returns exactly the Name/Version/Requires-Dist fields of the RFC 822 header block; "
-              "the wheel's own dist-info is chosen exactly when no later member matches the project regex; unreadable wheels are "
-              "errors.  The unguarded statements are refuted by concrete witnesses that replay on /repo (known findings).  The model "
-              "is rebuilt from the source's shapes (T1) and differentially executed against the real code on every run (T2).")
+LEVEL_TEXT = ("Theorems proved in Coq for ALL METADATA texts, ALL archive name lists and ALL read/replace histories over a Gallina "
+              "transcription of _parse_flat_metadata (unfolding pre-pass + field loop), _find_dist_info_metadata (three regex passes), "
+              "_fetch_from_wheel and the .whl branch of extract_metadata: for every text with a harmless body the parser returns exactly "
+              "the Name/Version/Requires-Dist fields of the RFC 822 header block (folded fields, ':' in values, CRLF); a wheel with one "
+              "root-level dist-info of its project reads that one whatever is vendored; unreadable wheels are errors; a read depends on "
+              "the archive's content now.  Two unguarded statements remain refuted by witnesses that replay on /repo (known findings).  "
+              "The model is rebuilt from the source's shapes (T1) and differentially executed against the real code on every run (T2).")
 LEVEL_NOTE = ("Trusted: Coq kernel, extraction, OCaml driver, T1 reader and T2 harness; zipfile/decode/re and the third-party "
               "requirement and version parsers are outside the model (oracles); the RFC 822 reading is the model's rfc822_fields, "
               "cross-checked against the stdlib email parser by sampling.")
